@@ -55,7 +55,7 @@ class C09(PropBase):
 
     def random_cases(self, rnd, n):
         for _ in range(n):
-            c = state_case(rnd, removal=True, max_calls=9, family=rnd.choice(['int', 'int', 'str', 'ustr']), isolated=False)
+            c = state_case(rnd, removal=True, max_calls=9, family=rnd.choice(['int', 'int', 'str', 'ustr', 'lb']), isolated=False)
             c['fmt'] = rnd.choice(FMTS)
             c['rows4'] = four_col_rows(rnd, [1, 2, 3])
             yield c
